@@ -850,7 +850,13 @@ def c18_transition(ctx: Ctx) -> List[Violation]:
         ctx.cov["c18:two_or_more_queued"] += 1
     for a, sa in pre_q.items():
         pa = ctx.post.vehicles[a].vehicle_state
-        if pa.__class__.__name__ != "ChargingStation":
+        via_base = False
+        if pa.__class__.__name__ == "ChargingBase":
+            # charging through a base draws from the base's station: if that is the station (and plug type) the vehicle was queueing
+            # for, it has been granted one of the plugs the queue is waiting for
+            b = ctx.post.bases.get(pa.base_id)
+            via_base = b is not None and b.station_id == sa.station_id and pa.charger_id == sa.charger_id
+        if pa.__class__.__name__ != "ChargingStation" and not via_base:
             if pa.__class__.__name__ != "ChargeQueueing":
                 ctx.cov["c18:abandoned_queue"] += 1
             continue
